@@ -113,6 +113,8 @@ def run(tier):
         report.notes.append("model leg not built yet")
     else:
         c04_models.run(tier, report)
+    from checks import c04_variants
+    c04_variants.run(tier, report)
     return report
 
 
@@ -126,6 +128,9 @@ def replay(case):
     from mc.matrix import find_datum
     from mc.sweep import Ctx, loaders_for
     report = Report()
+    if case["kind"] == "variant":
+        from checks import c04_variants
+        return c04_variants.replay(case)
     if case["kind"] != "types":
         from checks import c04_models
         return c04_models.replay(case)
